@@ -142,3 +142,122 @@ def directives_unit(kf):
 
 UNITS = {'c10_recursive_depth': (['C10', 'C12'], depth_unit), 'c10_max_directives': (['C10'], directives_unit)}
 SEARCH = {'c10_recursive_depth': ['c10_depth'], 'c10_max_directives': ['c10_directives']}
+
+
+from specs.common import registry_types  # noqa: E402
+from vx.unit import LetChain  # noqa: E402
+
+VD = 'src/validation/visitors/depth.rs'
+VCX = 'src/validation/visitors/complexity.rs'
+VM = 'src/validation/mod.rs'
+
+VIS_SHIM = r'''
+// trusted shim: validation::visitor::VisitorContext -- type stack accessors and the error list (the stack discipline lives in the unverified driver)
+pub struct VisitorContext { pub cur: Option<MetaType>, pub par: Option<MetaType>, pub errors: Vec<Pos> }
+impl VisitorContext {
+    pub fn parent_type(&self) -> (r: Option<&MetaType>) ensures r == (match self.par { Some(t) => Some(&t), None => None }) { self.par.as_ref() }
+    pub fn report_error_at(&mut self, pos: Pos) ensures final(self).errors@ == old(self).errors@.push(pos), final(self).par == old(self).par, final(self).cur == old(self).cur { self.errors.push(pos); }
+}
+impl ComputeComplexityFn {
+    // R-ty: calling the stored fn pointer. The context and variable definitions are dropped from the model (the rule is opaque anyway).
+    #[verifier::external_body]
+    pub fn call(&self, ctx: &VisitorContext, field: &Field, children: usize) -> (r: Result<usize, ServerError>)
+        ensures match r { Ok(n) => self.spec_call(*field, children) == Ok::<usize, Seq<char>>(n), Err(_) => self.spec_call(*field, children) is Err }
+    { unimplemented!() }
+}
+pub struct MetaTypeName;
+impl MetaTypeName {
+    pub uninterp spec fn spec_concrete_typename(s: Seq<char>) -> Seq<char>;
+    #[verifier::external_body]
+    pub fn concrete_typename(s: &str) -> (r: &str) ensures r@ == Self::spec_concrete_typename(s@) { unimplemented!() }
+}
+// `*v.last_mut().unwrap() += n` (R-ty: Vec::last_mut is not specified in vstd)
+pub fn vec_add_last(v: &mut Vec<usize>, n: usize)
+    requires old(v)@.len() >= 1, old(v)@.last() + n <= usize::MAX
+    ensures final(v)@ == old(v)@.drop_last().push((old(v)@.last() + n) as usize)
+{
+    let k = v.len() - 1;
+    let x = v[k];
+    v.set(k, x + n);
+    proof { assert(v@ =~= old(v)@.drop_last().push((old(v)@.last() + n) as usize)); }
+}
+pub struct DepthCalculate<'a> { pub max_depth: &'a mut usize, pub current_depth: usize }
+pub struct ComplexityCalculate<'a> { pub complexity: &'a mut usize, pub complexity_stack: Vec<usize> }
+'''
+
+CX_SPEC = r'''
+// the field's own complexity rule, looked up on the PARENT object type by the field's NAME (never its alias)
+pub open spec fn own_rule(par: Option<MetaType>, field: Field) -> Option<ComputeComplexityFn> {
+    match par {
+        Some(MetaType::Object { fields, .. }) => {
+            let k = MetaTypeName::spec_concrete_typename(field.name.node@);
+            if fields.view().contains_key(k) { fields.view()[k].compute_complexity } else { None }
+        },
+        _ => None,
+    }
+}
+'''
+
+
+def visitors_unit(kf):
+    u = Unit('c10_visitors', ['C10'], 'depth / complexity visitors and the limit comparison of check_rules')
+    u.kf = kf
+    value_types(u)
+    ast_types(u)
+    registry_types(u)
+    u.trusted(SHIM, 'ServerError shim')
+    u.trusted(VIS_SHIM, 'VisitorContext / visitor struct shims')
+    u.shim_conformance(VD, ['struct DepthCalculate'], [('max_depth', "&'a mut usize"), ('current_depth', 'usize')])
+    u.shim_conformance(VCX, ['struct ComplexityCalculate'], [('complexity', "&'a mut usize"), ('complexity_stack', 'Vec<usize>')])
+    u.spec(CX_SPEC, 'complexity rule lookup spec')
+    D = "impl<'ctx> Visitor<'ctx> for DepthCalculate<'_>"
+    sig = [ReSub(r"VisitorContext<'ctx>", 'VisitorContext'), ReSub(r"VisitorContext<'_>", 'VisitorContext', count='*'), ReSub(r"&'ctx ", '&', count='*')]
+    u.extract_fn(VD, [D, 'fn enter_field'], wrap_impl="<'a> DepthCalculate<'a>", name='enter_field', sig_rewrites=[ReSub(r"VisitorContext<'ctx>", 'VisitorContext'), ReSub(r"&'ctx ", '&', count='*')],
+                 requires=['old(self).current_depth < usize::MAX'],
+                 ensures=['final(self).current_depth == old(self).current_depth + 1',
+                          '*final(self).max_depth == (if *old(self).max_depth >= final(self).current_depth { *old(self).max_depth } else { final(self).current_depth })'])
+    u.extract_fn(VD, [D, 'fn exit_field'], wrap_impl="<'a> DepthCalculate<'a>", name='exit_field', sig_rewrites=[ReSub(r"VisitorContext<'ctx>", 'VisitorContext'), ReSub(r"&'ctx ", '&', count='*')],
+                 requires=['old(self).current_depth > 0   // enter/exit calls are balanced (established by the unverified visit_field driver)'],
+                 ensures=['final(self).current_depth == old(self).current_depth - 1', '*final(self).max_depth == *old(self).max_depth'])
+    CXI = "impl<'ctx> Visitor<'ctx> for ComplexityCalculate<'ctx, '_>"
+    csig = [ReSub(r"VisitorContext<'ctx>", 'VisitorContext', count='*'), ReSub(r"VisitorContext<'_>", 'VisitorContext', count='*'), ReSub(r"&'ctx ", '&', count='*')]
+    u.extract_fn(VCX, [CXI, 'fn enter_field'], wrap_impl="<'a> ComplexityCalculate<'a>", label=VCX + '::enter_field', sig_rewrites=csig,
+                 ensures=['final(self).complexity_stack@ == old(self).complexity_stack@.push(0)', '*final(self).complexity == *old(self).complexity'])
+    u.extract_fn(VCX, [CXI, 'fn enter_document'], wrap_impl="<'a> ComplexityCalculate<'a>", label=VCX + '::enter_document', sig_rewrites=csig,
+                 ensures=['final(self).complexity_stack@ == old(self).complexity_stack@.push(0)'])
+    u.extract_fn(VCX, [CXI, 'fn exit_document'], wrap_impl="<'a> ComplexityCalculate<'a>", label=VCX + '::exit_document', sig_rewrites=csig,
+                 requires=['old(self).complexity_stack@.len() >= 1'],
+                 ensures=['*final(self).complexity == old(self).complexity_stack@.last()', 'final(self).complexity_stack@ == old(self).complexity_stack@.drop_last()'])
+    u.extract_fn(VCX, [CXI, 'fn exit_field'], wrap_impl="<'a> ComplexityCalculate<'a>", label=VCX + '::exit_field', sig_rewrites=csig,
+                 rewrites=[LetChain(count=1),
+                           Sub('match f( ctx, self.variable_definition.unwrap_or(&[]), &field.node, children_complex, )', 'match f.call(ctx, &field.node, children_complex)', rule='R-ty'),
+                           Sub('*self.complexity_stack.last_mut().unwrap() += n;', 'vec_add_last(&mut self.complexity_stack, n);', rule='R-ty'),
+                           Sub('*self.complexity_stack.last_mut().unwrap() += 1 + children_complex;', 'vec_add_last(&mut self.complexity_stack, 1 + children_complex);', rule='R-ty'),
+                           Sub('ctx.report_error(vec![field.pos], err.to_string())', 'ctx.report_error_at(field.pos)', rule='R-msg')],
+                 requires=['old(self).complexity_stack@.len() >= 2   // balanced enter/exit (established by the unverified driver)',
+                           'old(self).complexity_stack@[old(self).complexity_stack@.len() - 2] + 1 + old(self).complexity_stack@.last() <= usize::MAX   // no usize wrap of the running total (assumed; a wrap would bypass the limit)',
+                           'forall|n: usize| own_rule(old(ctx).par, field.node) is Some && own_rule(old(ctx).par, field.node)->Some_0.spec_call(field.node, old(self).complexity_stack@.last()) == Ok::<usize, Seq<char>>(n) ==> old(self).complexity_stack@[old(self).complexity_stack@.len() - 2] + n <= usize::MAX'],
+                 ensures=['''({
+            let st = old(self).complexity_stack@; let c = st.last(); let base = st.drop_last();
+            match own_rule(old(ctx).par, field.node) {
+                Some(f) => match f.spec_call(field.node, c) {
+                    Ok(n) => final(self).complexity_stack@ == base.drop_last().push((base.last() + n) as usize) && final(ctx).errors@ == old(ctx).errors@,
+                    Err(_) => final(self).complexity_stack@ == base && final(ctx).errors@ == old(ctx).errors@.push(field.pos),
+                },
+                None => final(self).complexity_stack@ == base.drop_last().push((base.last() + 1 + c) as usize) && final(ctx).errors@ == old(ctx).errors@,
+            } })'''])
+    u.extract_fragment(VM, ['fn check_rules'], 'if let Some(limit_complexity) = limit_complexity', 'return Err(vec![ServerError::new("Query is nested too deep.", None)]); }',
+                       name='check_limits',
+                       header='fn check_limits(limit_complexity: Option<usize>, limit_depth: Option<usize>, complexity: usize, depth: usize) -> (r: Result<(), Vec<ServerError>>)',
+                       footer='    Ok(())\n}',
+                       rewrites=[LetChain(count=2), MacroCall('vec', 'verif_errs()', rule='R-msg', count=2)],
+                       ensures=['r.is_err() <==> ((limit_complexity is Some && complexity > limit_complexity->Some_0) || (limit_depth is Some && depth > limit_depth->Some_0))'])
+    u.trusted('#[verifier::external_body]\npub fn verif_errs() -> (r: Vec<ServerError>) { unimplemented!() }', 'error list shim')
+    u.assume('visitors: enter/exit calls are balanced and made once per field with fragments inlined by the unverified visit_* driver; the running complexity total does not wrap usize (precondition)')
+    u.assume('check_rules: only the limit-comparison fragment (E2) is under contract; the surrounding control flow (rule selection by ValidationMode, visit call) is not')
+    u.search_case('complexity.rs', 'c10_complexity')
+    return u
+
+
+UNITS['c10_visitors'] = (['C10'], visitors_unit)
+SEARCH['c10_visitors'] = ['c10_complexity']
